@@ -129,6 +129,24 @@ def step (s : St) (line : String) : St × String :=
                   else (none, (h, vp') :: s.pvals.filter (·.1 != h))
                 | _, _ => (some "PROOF-MODEL-DIFFERS leaf none", s.pvals))
              | none => (some "PROOF-MODEL-DIFFERS path", s.pvals))
+          | _, _, some tp, some vp =>
+            -- a WHOLE part (string, nested struct, nested array) is assigned: the proof model's `partAt` must locate it where the
+            -- library writes, and - when the new value has the size of the old one and the library accepts it - `setAt` must give
+            -- the value the whole object then reads (the definitions of C10_set_part_at_path)
+            (match Drv.LayP.pathP t vp (parsePath path), Drv.LayP.valP tt v with
+             | some pp, some v2 =>
+               (match Lay.partAt tp vp pp with
+                | some (lo, t', v1) =>
+                  if o + lo != a then (some s!"PROOF-MODEL-DIFFERS part {o + lo}", s.pvals)
+                  else if e.isNone && Lay.vsize t' v2 == Lay.vsize t' v1 then
+                    (match Lay.setAt tp vp pp v2 with
+                     | some vp' =>
+                       if Drv.LayP.showP t vp'.norm != deep b.mem t o then (some s!"PROOF-MODEL-DIFFERS setAt {Drv.LayP.showP t vp'.norm}", s.pvals)
+                       else (none, (h, vp') :: s.pvals.filter (·.1 != h))
+                     | none => (some "PROOF-MODEL-DIFFERS setAt none", s.pvals))
+                  else (none, s.pvals.filter (·.1 != h))
+                | none => (some "PROOF-MODEL-DIFFERS part none", s.pvals))
+             | _, _ => (none, s.pvals.filter (·.1 != h)))
           | _, _, _, _ => (none, s.pvals.filter (·.1 != h))
         if !pm then ({ s with buf := b }, "PROOF-MODEL-DIFFERS assign") else
         match pl with
